@@ -245,6 +245,30 @@ def err_shapes(tier):
                         if n_obs == 2 and n >= 1:
                             shapes.append(base + obs[:1] + mws + obs[1:] + [route])
                         shapes.append(base + obs + mws + [route, {"k": "observer", "c": "OBS3__0"}])
+    # ERR-NEST: error handlers registered at different nesting levels than the failing components
+    # (lookup walks from the component's blueprint to its ancestors; a specific handler anywhere on
+    # that chain beats any fallback handler; the nearest one of each kind wins)
+    def eh_set(kind, idx):
+        if kind == "none":
+            return []
+        if kind == "fallback":
+            return [{"k": "eh", "c": f"EH_PAVEXERROR_{idx}__0"}]
+        return [{"k": "eh", "c": f"EH_{kind}_{idx}__0"}]
+
+    kinds_eh = ["none", "fallback", "ERRH", "ERRC", "ERRPRE"]
+    for root_eh, nested_eh in itertools.product(kinds_eh, kinds_eh):
+        if root_eh == "none" and nested_eh == "none":
+            continue
+        for with_pre in ([False, True] if tier == "thorough" or (root_eh, nested_eh) in (("ERRH", "ERRC"), ("fallback", "fallback")) else [False]):
+            inner = eh_set(nested_eh, 2) + [ctor_op(0, "P", "0", "f", "request_scoped", None)]
+            if with_pre:
+                inner.append({"k": "pre", "c": mw_id("pre", 1, True)})
+            inner.append({"k": "route", "c": handler_id(0, ["PR", "0", "0"], True)})
+            obs = [{"k": "observer", "c": "OBS1__0"}]
+            shapes.append(eh_set(root_eh, 1) + obs + [{"k": "nest", "bp": {"ops": inner}}])
+            # two levels: the handlers of the middle level sit between root and the failing components
+            shapes.append(eh_set(root_eh, 1) + [{"k": "nest", "bp": {"ops": eh_set(nested_eh, 2) + obs + [
+                {"k": "nest", "bp": {"ops": inner[len(eh_set(nested_eh, 2)):]}}]}}])
     return shapes
 
 
